@@ -4,10 +4,18 @@ mod gate;
 mod gen;
 mod sim;
 mod trace;
+mod tracing_all;
 mod scenarios;
 
 fn main() {
     let args: Vec<String> = std::env::args().collect();
+    // the in-process replay scenarios run with every log statement enabled; the simulated-network
+    // scenarios enable it per run (see sim::run_sim)
+    let _tracing = if args.get(1).map(|s| s.starts_with("replay-") || s.starts_with("table-") || s == "codegen-cancel" || s == "limstress").unwrap_or(false) {
+        Some(tracing_all::on_this_thread())
+    } else {
+        None
+    };
     let code = scenarios::dispatch(&args[1..]);
     std::process::exit(code);
 }
